@@ -227,6 +227,32 @@ impl FromStr for PathAndQuery {
     #[verifier::external_body] fn from_str(s: &str) -> (r: Result<Self, InvalidUri>) { unimplemented!() }
 }
 
+// what `uri::Builder::authority` accepts (the `Authority: TryFrom<T>` bound of the http crate, for the two T used with h3)
+pub trait AuthoritySource { spec fn src_bytes(&self) -> Seq<u8>; }
+impl<'a> AuthoritySource for &'a [u8] { open spec fn src_bytes(&self) -> Seq<u8> { (*self)@ } }
+impl AuthoritySource for Authority { open spec fn src_bytes(&self) -> Seq<u8> { self.bytes() } }
+// `impl TryFrom<&[u8]> for Authority` (uri/authority.rs: `Authority::try_from(s)` is the parser)
+impl<'a> TryFrom<&'a [u8]> for Authority {
+    type Error = InvalidUri;
+    #[verifier::external_body]
+    fn try_from(s: &'a [u8]) -> (r: Result<Authority, InvalidUri>)
+        ensures match r { Ok(a) => spec_authority_from(s@) == Some(a), Err(_) => spec_authority_from(s@) is None },
+    { unimplemented!() }
+}
+// `impl PartialEq for Authority` compares with `eq_ignore_ascii_case` (uri/authority.rs): equal bytes compare equal,
+// but values that compare equal need NOT have the same bytes ("Example.com" == "example.com")
+pub uninterp spec fn spec_eq_ignore_ascii_case(a: Seq<u8>, b: Seq<u8>) -> bool;
+impl PartialEq for Authority {
+    #[verifier::external_body]
+    fn eq(&self, other: &Authority) -> (r: bool) ensures r == spec_eq_ignore_ascii_case(self.bytes(), other.bytes()) { unimplemented!() }
+}
+impl From<InvalidUri> for http::Error {
+    #[verifier::external_body] fn from(e: InvalidUri) -> (r: http::Error) { unimplemented!() }
+}
+// std: Option<Result<T, E>>::transpose
+pub assume_specification<T, E> [Option::<Result<T, E>>::transpose] (o: Option<Result<T, E>>) -> (r: Result<Option<T>, E>)
+    ensures r == (match o { None => Ok::<Option<T>, E>(None), Some(Ok(x)) => Ok(Some(x)), Some(Err(e)) => Err(e) });
+
 #[verifier::external_body] pub struct Uri { x: u8 }
 // http::uri::Parts has exactly these public fields (+ a private unit field)
 pub struct Parts {
@@ -267,10 +293,11 @@ impl Builder {
         ensures r.s_failed() == (self.s_failed() || spec_scheme_from(v@) is None),
             r.s_scheme() == Some(v@), r.s_authority() == self.s_authority(), r.s_path() == self.s_path(),
     { unimplemented!() }
+    // `authority<T>(self, auth: T) where Authority: TryFrom<T>`: bytes are parsed, an `Authority` is taken as it is
     #[verifier::external_body]
-    pub fn authority(self, v: &[u8]) -> (r: Builder)
-        ensures r.s_failed() == (self.s_failed() || spec_authority_from(v@) is None),
-            r.s_authority() == Some(v@), r.s_scheme() == self.s_scheme(), r.s_path() == self.s_path(),
+    pub fn authority<T: AuthoritySource>(self, v: T) -> (r: Builder)
+        ensures r.s_failed() == (self.s_failed() || spec_authority_from(v.src_bytes()) is None),
+            r.s_authority() == Some(v.src_bytes()), r.s_scheme() == self.s_scheme(), r.s_path() == self.s_path(),
     { unimplemented!() }
     #[verifier::external_body]
     pub fn path_and_query(self, v: &[u8]) -> (r: Builder)
@@ -460,7 +487,11 @@ pub mod http_ax {
     pub broadcast proof fn axiom_path_slash()
         ensures (#[trigger] spec_path_from("/".spec_bytes())) is Some
     {}
+    #[verifier::external_body]
+    pub broadcast proof fn axiom_eq_ignore_case_refl(a: Seq<u8>)
+        ensures #[trigger] spec_eq_ignore_ascii_case(a, a)
+    {}
     pub broadcast group group_http_ax {
-        axiom_spec_cow, axiom_method_nonempty, axiom_header_name_inv, axiom_method_inv, axiom_status_inv, axiom_scheme_from, axiom_authority_from, axiom_authority_inv, axiom_scheme_inv, axiom_path_inv, axiom_path_slash
+        axiom_eq_ignore_case_refl, axiom_spec_cow, axiom_method_nonempty, axiom_header_name_inv, axiom_method_inv, axiom_status_inv, axiom_scheme_from, axiom_authority_from, axiom_authority_inv, axiom_scheme_inv, axiom_path_inv, axiom_path_slash
     }
 }
